@@ -166,7 +166,8 @@ def run(rep: vlib.Reporter, tier: str, seed: int) -> None:
                             f"preparing the same request gives different outcomes (difference class {c}; strict fragment={strict})", replay)
                 found = True
     # T3
-    bad, info = vlib.run_cases("C04", "wf", REQ, "wf_plan_auto", wf_terms, case_type="plan", shard=80) if wf_terms else ([], {})
+    bad, info = vlib.run_cases("C04", "wf", REQ + ["MV.Model.PlannerA"], "chk_wf_both", wf_terms, case_type="plan", shard=80,
+                               extra_defs="Definition chk_wf_both (p : plan) := wf_plan_auto p && wf_struct p && runsim_accepts p.") if wf_terms else ([], {})
     for k in bad[:5]:
         i = wf_idx[k]
         p = outs[i][0]["plan"]
